@@ -58,7 +58,9 @@ type wmodel struct {
 	Max int
 }
 
-var hookURLs = [2]string{"http://hook-one.example/cb", "http://hook-two.example/cb?x=1"}
+// (the second URL carries a percent-escape and a plus sign of its own: the API's url parameter
+// must give back exactly the registered string)
+var hookURLs = [2]string{"http://hook-one.example/cb", "http://hook-two.example/cb?topic=a%2Fb&tag=x+y"}
 
 const hookToken = "s3cr3t"
 const customHeader = "X-Api-Key"
@@ -598,11 +600,15 @@ func prodClientRuns(env core.Env, rep *core.Report, job *int) {
 			if oc == "badbody" {
 				_, _ = conn.Write([]byte("HTTP/1.1 200 OK\r\nContent-Length: 10\r\n\r\nab"))
 			}
+			if oc == "badbodylate" {
+				// the body breaks only after several hundred bytes have arrived
+				_, _ = conn.Write([]byte("HTTP/1.1 200 OK\r\nContent-Length: 2000\r\n\r\n" + strings.Repeat("z", 600)))
+			}
 			_ = conn.Close()
 		}
 	}))
 	defer srv.Close()
-	outs := []string{"200", "500", "transport", "badbody"}
+	outs := []string{"200", "500", "transport", "badbody", "badbodylate"}
 	var seqs [][]string
 	for _, a := range outs {
 		seqs = append(seqs, []string{a})
